@@ -419,24 +419,41 @@ def collectVals (mesgNum fieldNum : Nat) (v : Value) (acc : List AccEntry) : Lis
 
 /-! ### data records -/
 
+/-- `d.timestamp = timestamp; d.lastTimeOffset = byte(timestamp & CompressedTimeMask)` -/
+def setTs (t : Nat) (s : St) : St := { s with q := { s.q with ts := t, lastOff := t &&& compressedTimeMask } }
+
+/-- a decoded field numbered 253 whose value is a `TypeUint32` becomes the active timestamp -/
+def noteTs (num : Nat) (v : Value) (s : St) : St :=
+  match v with
+  | .uint32 t => if num = fieldNumTimestamp then setTs t s else s
+  | _ => s
+
+/-- `if field.Accumulate && d.options.shouldExpandComponent { d.collectAccumulableValues(...) }` -/
+def noteAcc (accumulate : Bool) (mesgNum num : Nat) (v : Value) (s : St) : St :=
+  if accumulate ∧ s.o.exp then { s with q := { s.q with acc := collectVals mesgNum num v s.q.acc } } else s
+
+/-- what `decodeFields` takes from the factory and the field definition: base type, `Type == profile.Bool`, array
+flag, and whether a string's array-ness is decided by counting its terminators (unknown fields only). The `%` of
+the array test divides by the base type's size. -/
+def fieldShape (info : FieldInfo) (fd : FieldDef) : Res (Nat × Bool × Bool × Bool) :=
+  if info.known then pure (info.bt, info.isBool, info.array, false) else do
+    let bsz := btSize fd.bt
+    let arr ← (if fd.size > bsz then do let r ← modP fd.size bsz; pure (decide (r = 0)) else pure false : Res Bool)
+    pure (fd.bt, decide (fd.bt &&& baseTypeNumMask = profileBool), arr, decide (fd.bt = btString))
+
+/-- how the bytes are read: a field shorter than its base type is read as a byte array and converted afterwards -/
+def readShape (size bt : Nat) (isBool isArray : Bool) : Nat × Bool × Bool :=
+  if size < btSize bt then (btUint8, false, true) else (bt, isBool, isArray)
+
 /-- `decodeFields`, one field definition: the decoded field (none: size zero, skipped) -/
 def decodeField (d : MesgDef) (fd : FieldDef) (s : St) : Res (Option DField × St) := do
   let info := s.o.fac.create d.mesgNum fd.num
-  let (bt, isBoolF, arrayF, overrideStr) ← (if info.known then pure (info.bt, info.isBool, info.array, false) else do
-      let bsz := btSize fd.bt
-      let arr ← (if fd.size > bsz then do let r ← modP fd.size bsz; pure (decide (r = 0)) else pure false : Res Bool)
-      pure (fd.bt, decide (fd.bt &&& baseTypeNumMask = profileBool), arr, decide (fd.bt = btString))
-    : Res (Nat × Bool × Bool × Bool))
+  let (bt, isBoolF, arrayF, overrideStr) ← fieldShape info fd
   if fd.size = 0 then pure (none, s) else
-  let small := decide (fd.size < btSize bt)
-  let (rbt, rBool, rArr) := if small then (btUint8, false, true) else (bt, isBoolF, arrayF)
-  let (v, s) ← readValue fd.size d.arch rbt rBool rArr overrideStr s
-  let v := if rbt ≠ bt then convertBytesToValue (sliceUint8Of v) d.arch bt else v
-  let s := match v with
-    | .uint32 t => if fd.num = fieldNumTimestamp then { s with q := { s.q with ts := t, lastOff := t &&& compressedTimeMask } } else s
-    | _ => s
-  let s := if info.accumulate ∧ s.o.exp then { s with q := { s.q with acc := collectVals d.mesgNum fd.num v s.q.acc } } else s
-  pure (some ⟨fd.num, bt, info.known, isBoolF, arrayF, v, false⟩, s)
+  let rs := readShape fd.size bt isBoolF arrayF
+  let (v, s) ← readValue fd.size d.arch rs.1 rs.2.1 rs.2.2 overrideStr s
+  let v := if rs.1 ≠ bt then convertBytesToValue (sliceUint8Of v) d.arch bt else v
+  pure (some ⟨fd.num, bt, info.known, isBoolF, arrayF, v, false⟩, noteAcc info.accumulate d.mesgNum fd.num v (noteTs fd.num v s))
 
 def decodeFields (d : MesgDef) : List FieldDef → List DField → St → Res (List DField × St)
   | [], acc, s => .ok (acc, s)
@@ -479,6 +496,17 @@ def fieldValueByNum (fs : List DField) (num : Nat) : Value :=
   | some f => f.value
   | none => .invalid
 
+/-- `decodeDeveloperFields`, one developer field definition with its field description -/
+def decodeDevField (d : MesgDef) (dd : DevDef) (fdsc : Desc) (s : St) : Res (Option DDev × St) :=
+  if !validBaseType fdsc.bt then .err .baseType else do
+  let bsz := btSize fdsc.bt
+  let arr ← (if dd.size > bsz then do let r ← modP dd.size bsz; pure (decide (r = 0)) else pure false : Res Bool)
+  if dd.size = 0 then pure (none, s) else
+  let rs := readShape dd.size fdsc.bt (decide (fdsc.bt &&& baseTypeNumMask = profileBool)) arr
+  let (v, s) ← readValue dd.size d.arch rs.1 rs.2.1 rs.2.2 (decide (fdsc.bt = btString)) s
+  let v := if rs.1 ≠ fdsc.bt then convertBytesToValue (sliceUint8Of v) d.arch fdsc.bt else v
+  pure (some ⟨dd.num, dd.idx, v⟩, s)
+
 /-- `decodeDeveloperFields` -/
 def decodeDevFields (d : MesgDef) : List DevDef → List DDev → St → Res (List DDev × St)
   | [], acc, s => .ok (acc, s)
@@ -487,17 +515,32 @@ def decodeDevFields (d : MesgDef) : List DevDef → List DDev → St → Res (Li
     | none => do
       let (_, s) ← readN dd.size s
       decodeDevFields d dds acc s
-    | some fdsc =>
-      if !validBaseType fdsc.bt then .err .baseType else do
-      let bsz := btSize fdsc.bt
-      let arr ← (if dd.size > bsz then do let r ← modP dd.size bsz; pure (decide (r = 0)) else pure false : Res Bool)
-      if dd.size = 0 then decodeDevFields d dds acc s else do
-      let small := decide (dd.size < bsz)
-      let (rbt, rArr) := if small then (btUint8, true) else (fdsc.bt, arr)
-      let rBool := if small then false else decide (fdsc.bt &&& baseTypeNumMask = profileBool)
-      let (v, s) ← readValue dd.size d.arch rbt rBool rArr (decide (fdsc.bt = btString)) s
-      let v := if rbt ≠ fdsc.bt then convertBytesToValue (sliceUint8Of v) d.arch fdsc.bt else v
-      decodeDevFields d dds (acc ++ [⟨dd.num, dd.idx, v⟩]) s
+    | some fdsc => do
+      let (f, s) ← decodeDevField d dd fdsc s
+      decodeDevFields d dds (match f with | some f => acc ++ [f] | none => acc) s
+
+/-- header of a compressed-timestamp record: the time offset advances the active timestamp; the record gets a
+timestamp field in front -/
+def compressedTs (header : Nat) (d : MesgDef) (s : St) : St × List DField :=
+  let off := header &&& compressedTimeMask
+  let t := (s.q.ts + (((off + 256 - s.q.lastOff) % 256) &&& compressedTimeMask)) % 4294967296
+  let info := s.o.fac.create d.mesgNum fieldNumTimestamp
+  let f : DField := if info.known then ⟨fieldNumTimestamp, info.bt, true, info.isBool, info.array, .uint32 t, false⟩
+    else ⟨fieldNumTimestamp, btUint32, false, false, false, .uint32 t, false⟩
+  ({ s with q := { s.q with ts := t, lastOff := off } }, [f])
+
+/-- after the fields of a record: the first file_id message of the sequence is kept; developer data ids and field
+descriptions feed the developer-data look-ups -/
+def noteMesg (mesgNum : Nat) (fields : List DField) (s : St) : St :=
+  let s := if s.q.fileId.isNone ∧ mesgNum = mesgNumFileId then { s with q := { s.q with fileId := some (mkFileId fields) } } else s
+  if mesgNum = mesgNumDeveloperDataId then
+    { s with look := { s.look with devIdx := s.look.devIdx ++ [uint8Of (fieldValueByNum fields fnDeveloperDataIdDeveloperDataIndex)] } }
+  else if mesgNum = mesgNumFieldDescription then
+    { s with look := { s.look with descs := s.look.descs ++ [mkDesc fields] } }
+  else s
+
+/-- `d.messages = append(d.messages, mesg)` unless broadcast-only -/
+def pushMsg (m : Msg) (s : St) : St := if !s.o.bo then { s with q := { s.q with msgs := m :: s.q.msgs } } else s
 
 /-- `decodeMessageData`; the listener call it makes, if any -/
 def decodeData (header : Nat) (s : St) : Res (St × Option Event) := do
@@ -506,24 +549,12 @@ def decodeData (header : Nat) (s : St) : Res (St × Option Event) := do
   match s.look.lookup (localNum &&& localMesgNumMask) with
   | none => .err .defMissing
   | some d =>
-    let (s, pre) := if compressed then
-        let off := header &&& compressedTimeMask
-        let t := (s.q.ts + (((off + 256 - s.q.lastOff) % 256) &&& compressedTimeMask)) % 4294967296
-        let info := s.o.fac.create d.mesgNum fieldNumTimestamp
-        let f : DField := if info.known then ⟨fieldNumTimestamp, info.bt, true, info.isBool, info.array, .uint32 t, false⟩
-          else ⟨fieldNumTimestamp, btUint32, false, false, false, .uint32 t, false⟩
-        ({ s with q := { s.q with ts := t, lastOff := off } }, [f])
-      else (s, [])
+    let (s, pre) := if compressed then compressedTs header d s else (s, [])
     let (fields, s) ← decodeFields d d.fields pre s
-    let s := if s.q.fileId.isNone ∧ d.mesgNum = mesgNumFileId then { s with q := { s.q with fileId := some (mkFileId fields) } } else s
-    let s := if d.mesgNum = mesgNumDeveloperDataId then
-        { s with look := { s.look with devIdx := s.look.devIdx ++ [uint8Of (fieldValueByNum fields fnDeveloperDataIdDeveloperDataIndex)] } }
-      else if d.mesgNum = mesgNumFieldDescription then
-        { s with look := { s.look with descs := s.look.descs ++ [mkDesc fields] } }
-      else s
+    let s := noteMesg d.mesgNum fields s
     let (devs, s) ← (if d.devs.isEmpty then pure ([], s) else decodeDevFields d d.devs [] s : Res (List DDev × St))
     let m : Msg := ⟨header, d.mesgNum, fields, devs⟩
-    let s := if !s.o.bo then { s with q := { s.q with msgs := m :: s.q.msgs } } else s
+    let s := pushMsg m s
     pure (s, if s.o.ml then some (.mesg m) else none)
 
 /-- `decodeMessage` -/
